@@ -25,4 +25,17 @@ structure HeapOps (H : Type) where
   extractMin : H → Nat × H
   decreaseKey : H → Nat → Array NodeK → H
 
+open AdaptaVerif.Model.PairingHeap in
+/-- the model's `decreaseKey`, reading the new key from the node as the C++ comparator does (`v->d`) -/
+def decKeyM (h : PTree Dist) (v : Nat) (vs : Array NodeK) : PTree Dist := decreaseKey ltDist h v (vs.getD v default).d
+
+open AdaptaVerif.Model.PairingHeap in
+/-- the model's pairing heap (Model/PairingHeap.lean) as the heap of the generated `dijkstra` -/
+def modelOps : HeapOps (PTree Dist) where
+  empty := .nil
+  isEmpty h := (findMin h).isNone
+  insert h i vs := insert ltDist h (vs.getD i default).d i
+  extractMin h := (((findMin h).map (·.2)).getD 0, deleteMin ltDist h)
+  decreaseKey := decKeyM
+
 end AdaptaVerif.Gen.KeysShortest
